@@ -1,5 +1,9 @@
 """C01 — mutex and spinlock: mutual exclusion, trylock, visibility.
 
+input space exercised (audit): back-ends c11 / sync / sim / posix; 1..4 lock objects; main thread + 1 or 2 helper threads in
+the line protocol, 3..16 threads in the real-thread programs; NULL arguments; every native return code of CODES in every
+position (scripted); init attribute / foreign mutex address made visible by the scripted wrappers.
+
 proof:  PV.Props.C01 over the records generated from pspinlock-{c11,sync,sim}.c and pmutex-posix.c
 tie:    harness/locks.c: (i) single-thread lock / trylock / unlock sequences (+ a second thread that must block)
         on the real c11 / sync / sim spinlocks and the posix mutex vs. `pvdriver locks`;
@@ -51,6 +55,77 @@ def random_sequence(rng, chk, variant, n, contends):
     return ops
 
 
+def multi_exhaustive(depth, nobj=2):
+    """every legal sequence of lock K / try K / unlock K / tother K over `nobj` objects up to `depth` ops
+    (main thread: lock only on a free object, unlock only what it holds; `tother` = a second thread's trylock)"""
+    def rec(prefix, held):
+        if prefix and (held or not prefix[-1].startswith("unlock")):      # (a closed sequence is also the closure of its prefix)
+            yield prefix + ["unlock %d" % k for k in sorted(held)]
+        if len(prefix) == depth:
+            return
+        for k in range(nobj):
+            for op in (["try", "unlock", "tother"] if k in held else ["lock", "try", "tother"]):
+                h = set(held)
+                if op == "unlock":
+                    h.discard(k)
+                elif op != "tother":
+                    h.add(k)
+                yield from rec(prefix + ["%s %d" % (op, k)], h)
+    seen = set()
+    for seq in rec([], set()):
+        if tuple(seq) not in seen:
+            seen.add(tuple(seq))
+            yield seq
+
+
+def multi_random(rng, chk, n, budget):
+    """longer sequences over all four objects, with NULL arguments, second-thread trylocks and (budgeted)
+    three-thread contention"""
+    ops, held = [], set()
+    for _ in range(n):
+        r = rng.random()
+        if r < 0.06:
+            op = rng.choice(["lock", "try", "unlock"])
+            ops.append(op + " -1")
+            chk.bump("null-" + op)
+            continue
+        k = rng.randrange(4)
+        if r < 0.25:
+            ops.append("tother %d" % k)
+            chk.bump("tother-" + ("held" if k in held else "free"))
+            continue
+        if k in held:
+            if budget[0] > 0 and r < 0.32:
+                budget[0] -= 1
+                ops.append("contend2 %d" % k)      # main unlocks inside the op
+                held.discard(k)
+                chk.bump("contend2")
+                continue
+            op = "unlock" if rng.random() < 0.5 else "try"
+        else:
+            op = rng.choice(["lock", "try"])
+        chk.bump("multi:%s-%s-others%d" % (op, "held" if k in held else "free", min(len(held - {k}), 2)))
+        ops.append("%s %d" % (op, k))
+        if op == "unlock":
+            held.discard(k)
+        else:
+            held.add(k)
+    ops += ["unlock %d" % k for k in sorted(held)]
+    return ops
+
+
+MULTI_PROBES = [
+    # a held object must not make another object look held, to the same or to another thread
+    ["lock 0", "try 1", "tother 2", "tother 0", "lock 3", "unlock 0", "tother 0", "try 0", "unlock 1", "unlock 3", "unlock 0"],
+    ["try 2", "tother 2", "lock 1", "tother 1", "unlock 2", "tother 2", "unlock 1", "tother 1"],
+    # three threads: two wait in lock while main holds, then take it in turn
+    ["lock 1", "contend2 1", "try 1", "tother 1", "unlock 1", "tother 1"],
+    ["try 0", "lock 2", "contend2 0", "tother 2", "contend2 2", "lock 0", "unlock 0"],
+    # NULL is a legal argument of every function
+    ["lock -1", "try -1", "unlock -1", "lock 0", "unlock -1", "try 0", "unlock 0"],
+]
+
+
 def script_exhaustive():
     for c0 in CODES:
         for (o1, c1), (o2, c2) in itertools.product(itertools.product(["lock", "try", "unlock"], CODES), repeat=2):
@@ -87,11 +162,28 @@ def stress_plan(variants, thorough):
     for v in variants:
         scale = 4 if v == "sim" else 1
         plan.append((v, "counter", [n, it // scale]))
+        plan.append((v, "hcounter", [n, it // (2 * scale)]))        # shadow holder count: any overlap, not only a lost update
+        plan.append((v, "twolocks", [3, it // (4 * scale)]))        # two objects, alone and nested
         if thorough and v != "sim":
             # three or more threads inside lock at once (two spinning while one holds): hand-off defects need it
             plan.append((v, "counter", [3, it // scale]))
             plan.append((v, "counter", [16, it // (4 * scale)]))
+        if v == "c11":
+            # the library is built by gcc: the same runs uninstrumented (value oracles only)
+            plan.append((v, "counter", [n, it], "plain"))
+            plan.append((v, "hcounter", [n, it], "plain"))
     plan.append(("c11", "mcounter", [n, it // 4]))          # the posix mutex itself
+    plan.append(("c11", "mtwolocks", [3, it // 8]))
+    return plan
+
+
+def quick_plan(variants):
+    """real threads in every run (a few seconds): exclusion, two objects, the mutex"""
+    plan = []
+    for v in variants:
+        scale = 2 if v == "sim" else 1
+        plan += [(v, "hcounter", [4, 40000 // scale]), (v, "counter", [3, 30000 // scale]), (v, "twolocks", [3, 15000 // scale])]
+    plan += [("c11", "hcounter", [4, 100000], "plain"), ("c11", "mcounter", [4, 20000]), ("c11", "mtwolocks", [3, 10000])]
     return plan
 
 
@@ -108,7 +200,7 @@ def run(chk):
     fams = {}
     for v in REAL + ["posix-script"]:
         try:
-            fams[v] = ac.VFamily("locks", ac.build_locks(cfg, v), v, timeout=180)
+            fams[v] = ac.VFamily("locks", ac.build_locks(cfg, v), v, timeout=60)
         except pv.BuildError as e:
             chk.violation(str(e), "C01 harness for %s does not build against the current source" % v, no_input=True, suffix="txt")
     depth = 9 if thorough else 7
@@ -123,8 +215,12 @@ def run(chk):
             probes = [["lock", "contend", "try", "unlock"], ["try", "contend", "lock", "unlock"]]
             contends = [8 if thorough else 2]
             rnd = [random_sequence(rng, chk, v, rng.choice([5, 20, 60]), contends) for _ in range(1500 if thorough else 200)]
+            mex = list(multi_exhaustive(4 if thorough else 3))
+            nseq += len(mex)
+            budget = [6 if thorough else 2]
+            mrnd = [multi_random(rng, chk, rng.choice([8, 25, 60]), budget) for _ in range(600 if thorough else 150)]
             cases = ac.corpus_for("C01", v)
-            f, c, t = diffrun.campaign(chk, fams[v], cases + probes + ex + rnd, proof_ok, detail, None, "C01 variant=" + v, batch=400)
+            f, c, t = diffrun.campaign(chk, fams[v], cases + probes + MULTI_PROBES + ex + mex + rnd + mrnd, proof_ok, detail, None, "C01 variant=" + v, batch=400)
             found, corr, thm = found or f, corr or c, thm or t
         if "posix-script" in fams:
             sx = list(script_exhaustive())
@@ -137,6 +233,8 @@ def run(chk):
     chk.cov["exhaustive_small_scope"] = {"single_thread_sequences_up_to": depth, "sequences": nseq,
                                          "scripted": "all (op, code)^2 after every init code"}
     need_search = (not (proof_ok and driver_ok)) or corr is not None or thm is not None
+    if not (thorough or need_search):
+        found = ac.stress_campaign(chk, cfg, "C01", quick_plan(["c11", "sync", "sim"]), 60, "real-thread run") or found
     if thorough or (need_search and not found):
         # a broken proof leaves the search as the only source of a concrete input: it gets the thorough plan
         found = ac.stress_campaign(chk, cfg, "C01", stress_plan(["c11", "sync", "sim"], thorough or need_search), 240 if thorough else 90,
@@ -153,10 +251,15 @@ def run(chk):
         pass
     chk.cov["rule"] = ("(i) per implementation (c11, sync, sim spinlock; posix mutex) all legal single-thread sequences of lock / try / unlock up to %d ops "
                        "(lock only on a free lock, unlock only by the holder), random longer ones, and `contend` probes where a second real thread calls lock on the "
-                       "held lock and must still be blocked after 150 ms; return values (and the lock word for c11 / sync) compared after every op. "
+                       "held lock and must still be blocked after 150 ms; return values (and the lock word for c11 / sync) compared after every op; "
+                       "the same ops on four objects (`lock K` …; all legal sequences over two objects up to %d ops, random ones over four), NULL arguments, "
+                       "`tother K` (a second thread's single trylock on a held / free object) and `contend2 K` (two more threads waiting in lock: three threads, "
+                       "shadow holder count). "
                        "(ii) pmutex-posix.c with pthread_mutex_{init,lock,trylock,unlock,destroy} wrapped at link time: every code of %s in every position of all "
                        "(op, code) pairs of length 2 after every init code, plus random scripts; wrapper result and the native function called are compared. "
-                       "distinct by op-file hash, non-trivial = more than one op") % (depth, CODES)
+                       "(iii) real threads in every run: counter / shadow-holder-count / two-lock programs on every back-end (ThreadSanitizer for c11 and sim, "
+                       "gcc -O2 value oracles for sync and once more for c11), larger in the thorough tier. "
+                       "distinct by op-file hash, non-trivial = more than one op") % (depth, 4 if thorough else 3, CODES)
     chk.cov["exhaustive"] = False
     chk.assumptions += [
         "hardware and compiler implement __atomic_compare_exchange_n / __atomic_store / __sync_bool_compare_and_swap as indivisible operations with the stated "
